@@ -201,6 +201,7 @@ func ruleR10(p *Prog) []Ob {
 
 		// (a) bounded allocation
 		nMake := 0
+		var boundExtra []string
 		for _, b := range fn.Blocks {
 			for _, ins := range b.Instrs {
 				mk, ok := ins.(*ssa.MakeSlice)
@@ -272,6 +273,9 @@ func ruleR10(p *Prog) []Ob {
 							neg = true
 						} else {
 							upper = true
+							if c := constTerms(expr, 0); c != 0 {
+								boundExtra = append(boundExtra, fmt.Sprintf("%s: the bound is applied to the decoded sizes plus %d", p.at(iff), c))
+							}
 						}
 						ob.Guards = append(ob.Guards, p.at(iff))
 					}
@@ -293,6 +297,15 @@ func ruleR10(p *Prog) []Ob {
 				}
 				obs = append(obs, ob)
 			}
+		}
+		{
+			ob := Ob{Rule: "R10", Inst: "a2:bound-counts-key-and-value-only:" + label, Props: append(append([]string{}, props...), "C17", "C01"), Pos: p.posStr(fn.Pos()), Func: funcLabel(fn), Nontrivial: true}
+			if len(boundExtra) > 0 {
+				ob.Status, ob.Msg, ob.Path = Violated, "the decoder's size limit counts bytes (header, trailer) that the writers' limit on key + value does not: a record the writers accept is rejected as corrupted when read back in this format", uniqStrings(boundExtra)
+			} else {
+				ob.Status, ob.Msg = Discharged, "the size limit is applied to the decoded key and value sizes alone, as on the writing side"
+			}
+			obs = append(obs, ob)
 		}
 		if nMake == 0 {
 			obs = append(obs, Ob{Rule: "R10", Inst: "a:bounded-alloc:" + label, Props: props, Pos: p.posStr(fn.Pos()), Func: funcLabel(fn), Status: Undecided, Msg: "no allocation sized by decoded bytes found in the record decoder (decoder not recognised)"})
@@ -1048,4 +1061,24 @@ func (p *Prog) payloadReadObligation(ea *ErrAtoms, fn *ssa.Function, label strin
 		ob.Status, ob.Msg = Discharged, fmt.Sprintf("%d payload read(s): the io.EOF outcome is always turned into a corruption sentinel", len(reads))
 	}
 	return ob
+}
+
+// constTerms: the sum of the constant leaves of an additive expression.
+func constTerms(v ssa.Value, d int) int64 {
+	if d > 8 {
+		return 0
+	}
+	v = stripConv(v)
+	if k, ok := constInt(v); ok {
+		return k
+	}
+	if bo, ok := v.(*ssa.BinOp); ok {
+		switch bo.Op {
+		case token.ADD:
+			return constTerms(bo.X, d+1) + constTerms(bo.Y, d+1)
+		case token.SUB:
+			return constTerms(bo.X, d+1) - constTerms(bo.Y, d+1)
+		}
+	}
+	return 0
 }
